@@ -29,6 +29,7 @@ CRATES = {
     "mech-logic": "machines/logic",
     "mech-range": "machines/range",
     "mech-set": "machines/set",
+    "mech-stats": "machines/stats",
 }
 # crates patched but not mirrored (plain path deps on /repo)
 PLAIN = {
@@ -36,7 +37,6 @@ PLAIN = {
     "mech-wasm": "src/wasm",
     "mech-combinatorics": "machines/combinatorics",
     "mech-matrix": "machines/matrix",
-    "mech-stats": "machines/stats",
     "mech-io": "machines/io",
     "mech-string": "machines/string",
 }
